@@ -491,7 +491,7 @@ class ModuleEnv:
         if contract is not None:
             eng.assumed_used.add(f'{key} (local call model in the contract of {eng.qualname}: assumed)')
         elif c.get('assumed'):
-            eng.assumed_used.add(f'{key} (assumed contract on {c.get("relpath")}:{c.get("qualname")})')
+            eng.assumed_used.add(f'{key} (assumed contract on {c.get("relpath")}:{c.get("qualname")}' + (f'; {c["backed_by"]}' if c.get('backed_by') else '') + ')')
         else:
             eng.callee_used.add(key)
             if c.get('partly_assumed'):      # a proved contract whose proof does not cover every argument form that call sites may pass
